@@ -120,6 +120,25 @@ def _cases_core(rng, tier):
         bs = bytes(rng.getrandbits(8) for _ in range(rng.randint(0, 12)))
         yield "scr_parse " + hx(bs), "parse-junk"
         yield "vi_read " + hx(bs), "varint-junk"
+    # aggregate size: scripts whose TOTAL serialised size sits around every varint width change and around powers of
+    # two / ten up to 2^17 (many maximal elements, or hundreds of small commands), parsed back
+    targets = [252, 253, 254, 1000, 4096, 9999, 10000, 10001, 16384, 32768, 65535, 65536, 65537, 100000, 131072]
+    for tgt in (targets if tier == "thorough" else rng.sample(targets, 5) + [10001, 65536]):
+        for style in ("big", "small"):
+            cmds, size = [], 0
+            while size < tgt:
+                left = tgt - size
+                if style == "big":
+                    ln = min(520, max(1, left - 3))
+                else:
+                    ln = min(rng.choice([1, 2, 20, 33]), max(1, left - 1))
+                if left <= 1 or rng.random() < (0.0 if style == "big" else 0.4):
+                    cmds.append(rng.choice([0, 0x76, 0xac]))
+                    size += 1
+                else:
+                    cmds.append(bytes(rng.getrandbits(8) for _ in range(ln)))
+                    size += len(_ser_indep([cmds[-1]]))
+            yield "scr_ser " + _cmds_str(cmds), "aggregate-size-%s" % style
     # re-segmentation siblings: scripts with the SAME serialised length and the SAME outer opcodes as a given script
     # (the four standard templates first) whose inner structure differs — one data element replaced by two pushes, by
     # an opcode and a push, or by three pushes of the same total wire size
